@@ -3,6 +3,7 @@
 Values are Python ints (ranks in a weak ordering), bools, tuples, or symbolic records (dicts).
 Anything outside the supported fragment raises NotPure -> the rule refuses (fail closed)."""
 from __future__ import annotations
+import re
 from ..astq import Node, up, strip, strip_cast
 
 
@@ -82,6 +83,16 @@ class Interp:
             else:
                 raise NotPure("assignment to unknown name " + lhs["path"])
             return
+        if lhs.k == "index":
+            b = self.ev(lhs["base"], env, depth)
+            i = self.ev(lhs["index"], env, depth)
+            if isinstance(b, dict) and b.get("__arr") is not None:
+                b["__arr"][i] = v
+                return
+            if isinstance(b, list) and isinstance(i, int) and 0 <= i < len(b):
+                b[i] = v
+                return
+            raise NotPure("assignment to an index of a non-array: " + up(lhs))
         if lhs.k == "field":
             b = self.ev(lhs["base"], env, depth)
             if isinstance(b, dict) and lhs["member"] in b:
@@ -181,6 +192,8 @@ class Interp:
             return all(self.match_pat(p, x, env) for p, x in zip(pat["elems"], v))
         if k in ("p_ref", "p_type"):
             return self.match_pat(pat["pat"], v, env)
+        if k == "p_or":
+            return any(self.match_pat(c, v, env) for c in pat["cases"])
         if k == "p_lit":
             return self.ev(pat["lit"], {}, 0) == v
         raise NotPure("pattern kind " + k)
@@ -234,7 +247,7 @@ class Interp:
             if n["t"] == "bool":
                 return bool(n["v"])
             if n["t"] == "float":
-                return ("f", float(n["v"]))
+                return float(re.sub(r"_?f(32|64)$", "", str(n["v"]))) if self.extern.get("floats") else ("f", float(n["v"]))
             if n["t"] in ("str", "char"):
                 return n["v"]
             raise NotPure("literal " + n["t"])
@@ -369,7 +382,12 @@ class Interp:
             recv = self.ev(n["recv"], env, depth)
             args = [self.ev(a, env, depth) for a in n["args"]]
             if m in ("min", "max") and len(args) == 1:
-                return min(recv, args[0]) if m == "min" else max(recv, args[0])
+                a_, b_ = recv, args[0]
+                if isinstance(a_, float) and a_ != a_:
+                    return b_          # f64::min / f64::max ignore a NaN operand
+                if isinstance(b_, float) and b_ != b_:
+                    return a_
+                return min(a_, b_) if m == "min" else max(a_, b_)
             if m in ("clone", "to_owned", "into", "copied") and not args:
                 return recv
             if m == "map" and len(args) == 1 and isinstance(args[0], tuple) and args[0][0] == "closure" and (recv is None or (isinstance(recv, tuple) and recv[0] == "some")):
